@@ -12,7 +12,7 @@ def is_next(t):
     return any(d.endswith(s) for s in NEXT_SUFFIX)
 
 
-def check(chk, rule, db, root, what):
+def check(chk, rule, db, root, what, end_only_at_eof=False):
     """root: a Body (fn); all nested bodies are inspected.  Returns number of source reads inspected."""
     n = 0
     for b in db.nested(root):
@@ -23,6 +23,14 @@ def check(chk, rule, db, root, what):
             err = o.get("Err")
             n += 1
             key = "%s@%s#%d" % (what, short(root.name), n)
+            # success only when the source has ended: from "an item arrived" no successful end is reachable without asking for the next
+            # item (a loop that stops early - on an empty frame, after N bytes - commits a prefix as if it were the whole stream)
+            some = o.get("Some")
+            if some and end_only_at_eof:
+                r_some = flow.reach_from_edges(b, some, stop_blocks=frozenset([bi]))
+                early = [w for w in flow.return_writes(b) if w["kind"] == "Ok" and w["bi"] in r_some]
+                chk.verdict(not early, rule, key + ".ends-at-eof", b.loc(early[0]["bi"]) if early else b.loc(bi),
+                            "%s can finish successfully after an item arrived, without the source having ended: the rest of the stream is never read" % what)
             if not err:
                 # the item is forwarded untested (e.g. `result?` handled elsewhere / returned as is): acceptable only if it flows to the result
                 sl_ok = False
